@@ -28,6 +28,74 @@ var VerifHooks struct {
 	// its own flight; the raw message is passed to GotClientEncryptedExtensions.
 	ClientEncryptedExtensions13    func(c *Conn) bool
 	GotClientEncryptedExtensions13 func(c *Conn, raw []byte)
+	// ServerCookieHRR13 may return a cookie; the TLS 1.3 server then first sends a
+	// HelloRetryRequest that carries only that cookie (no key_share), requires the
+	// second ClientHello to echo it, and negotiates from the second ClientHello.
+	ServerCookieHRR13 func(c *Conn) []byte
+	// AcceptCookie13, if it returns true for c, makes the server tolerate a cookie
+	// in the second ClientHello (one that a harness added to the HelloRetryRequest).
+	AcceptCookie13 func(c *Conn) bool
+}
+
+func verifHookServerCookieHRR13(hs *serverHandshakeStateTLS13) error {
+	c := hs.c
+	if VerifHooks.ServerCookieHRR13 == nil {
+		return nil
+	}
+	cookie := VerifHooks.ServerCookieHRR13(c)
+	if len(cookie) == 0 {
+		return nil
+	}
+	// as in doHelloRetryRequest
+	if err := transcriptMsg(hs.clientHello, hs.transcript); err != nil {
+		return err
+	}
+	chHash := hs.transcript.Sum(nil)
+	hs.transcript.Reset()
+	hs.transcript.Write([]byte{typeMessageHash, 0, 0, uint8(len(chHash))})
+	hs.transcript.Write(chHash)
+	hrr := &serverHelloMsg{
+		vers:              hs.hello.vers,
+		random:            helloRetryRequestRandom,
+		sessionId:         hs.hello.sessionId,
+		cipherSuite:       hs.hello.cipherSuite,
+		compressionMethod: hs.hello.compressionMethod,
+		supportedVersion:  hs.hello.supportedVersion,
+		cookie:            cookie,
+	}
+	if _, err := c.writeHandshakeRecord(hrr, hs.transcript); err != nil {
+		return err
+	}
+	if err := hs.sendDummyChangeCipherSpec(); err != nil {
+		return err
+	}
+	msg, err := c.readHandshake(nil)
+	if err != nil {
+		return err
+	}
+	ch2, ok := msg.(*clientHelloMsg)
+	if !ok {
+		c.sendAlert(alertUnexpectedMessage)
+		return errors.New("verif: expected a second ClientHello after the cookie-only HelloRetryRequest, got " + typeName(msg))
+	}
+	if string(ch2.cookie) != string(cookie) {
+		c.sendAlert(alertIllegalParameter)
+		return errors.New("verif: the second ClientHello does not echo the cookie")
+	}
+	ch2.cookie = nil
+	if illegalClientHelloChange(ch2, hs.clientHello) {
+		c.sendAlert(alertIllegalParameter)
+		return errors.New("verif: client illegally modified second ClientHello after a cookie-only HelloRetryRequest")
+	}
+	c.didHRR = true
+	hs.clientHello = ch2
+	return nil
+}
+
+func verifHookSecondClientHello13(c *Conn, ch *clientHelloMsg) {
+	if VerifHooks.AcceptCookie13 != nil && VerifHooks.AcceptCookie13(c) {
+		ch.cookie = nil
+	}
 }
 
 func verifHookOutgoingHandshake(c *Conn, msg handshakeMessage, data []byte) []byte {
